@@ -51,3 +51,17 @@ PROPS['C07']['ties'].append(fault_tie('C07'))
 PROPS['C07']['explanation'] += FAULT_NOTE
 PROPS['C08']['ties'].append(fault_tie('C08'))
 PROPS['C08']['explanation'] += FAULT_NOTE
+
+# TIE-H: the history tie through the real HTTP API (harness/go/vh/httpop.go): v2 requests in, v2 read endpoints out
+def http_tie(pid, quick=150, thorough=3000, extra=None):
+    args = ['-via', 'http', '-monitors', pid, '-features', 'mixed'] + (extra or [])
+    return dict(name='TIE-H http', vh='hist', model='histh', n=dict(quick=quick, thorough=thorough), args=dict(all=args), kinds=[pid], case_head='histh')
+HTTP_NOTE = (' TIE-H: the same generated histories are also issued as v2 HTTP requests against the real api.NewRouter (chi routing, body/query/header decoding incl. Idempotency-Key, '
+             'dryRun, force in body or query, atEffectiveDate, error mapping to status + errorCode, views.go rendering with and without Formance-Bigint-As-String) and the ledger is read '
+             'back through the v2 list endpoints followed cursor by cursor (volumes, transactions with expand, accounts with expand, logs, aggregated balances); the printed trace must '
+             'equal the model\'s (results projected on what an HTTP answer shows: transaction id, hit flag, status:errorCode). Monitors without model: the API reads equal the controller '
+             'reads after every operation; every page honours the requested page size; the transaction a write answers with equals the one listed right after, and its '
+             'preCommitVolumes are post-commit minus own postings.')
+for _pid, _extra in [('C02', None), ('C03', None), ('C13', ['-profile', 'ik']), ('C15', None), ('C17', None), ('C25', ['-profile', 'postings'])]:
+    PROPS[_pid]['ties'].append(http_tie(_pid, extra=_extra))
+    PROPS[_pid]['explanation'] += HTTP_NOTE
